@@ -25,12 +25,13 @@ func init() {
 				"Line (from its line parameter or the lexer's current line) and TemplatePath (from t.Name). (C12.early) in the parser, a line number handed to a constructor is read before any nested " +
 				"body (itemList) is parsed on that path, so multi-line constructs carry the line of their opening action. (C12.pos) every panic reachable from Execute is raised through NodeBase.errorf " +
 				"(and so carries file and line); functions that panic with a bare error are enumerated. (C12.stream) outside executeTry (and exec's Discard) nothing replaces the output Writer, so output " +
-				"produced before a failing action has already been written. (C12.piped) every dereference of a piped-value pointer (a *reflect.Value parameter or Arguments.pipedVal) lies where the pointer is known to be non-nil, so a '_' placeholder without a piped value is an error, not a nil dereference. (C12.div) every integer / and % whose divisor is not a non-zero constant lies where the divisor is known to be non-zero. (C12.assert) every unchecked assertion of a Node to a concrete node type lies where n.Type() is known to be that type's constant — by a positive test, or because every other type the parser admits at that place (derived from the parser's own tests around the append to an assignment's target list; declarations narrowed to identifier/underscore, itself an obligation on the parser) was ruled out. (C12.set) reflect.Value.Set is reached only where CanSet, the value's validity and AssignableTo are known true, SetMapIndex only where the map is non-nil and key and value fit the map's key and element types. (C12.call) reflect.Value.Call is reached only where the callee is known to be a non-nil function (its kind tested by the function or by every caller). (C12.iface) an unchecked v.Interface().(T) lies behind v.Type().Implements(<T>) for an interface T, and for a concrete T behind a Convert to T's reflect.Type or a test of type identity. (C12.kind) every reflect.Value.Int/Uint/Float/Bool lies where the kind of the receiver is known to be in the accessor's class (switch case, == test or one of the module's kind predicates, themselves verified against all kinds).",
+				"produced before a failing action has already been written. (C12.piped) every dereference of a piped-value pointer (a *reflect.Value parameter or Arguments.pipedVal) lies where the pointer is known to be non-nil, so a '_' placeholder without a piped value is an error, not a nil dereference. (C12.div) every integer / and % whose divisor is not a non-zero constant lies where the divisor is known to be non-zero. (C12.assert) every unchecked assertion of a Node to a concrete node type lies where n.Type() is known to be that type's constant — by a positive test, or because every other type the parser admits at that place (derived from the parser's own tests around the append to an assignment's target list; declarations narrowed to identifier/underscore, itself an obligation on the parser) was ruled out. (C12.set) reflect.Value.Set is reached only where CanSet, the value's validity and AssignableTo are known true, SetMapIndex only where the map is non-nil and key and value fit the map's key and element types. (C12.call) reflect.Value.Call is reached only where the callee is known to be a non-nil function (its kind tested by the function or by every caller). (C12.iface) an unchecked v.Interface().(T) lies behind v.Type().Implements(<T>) for an interface T, and for a concrete T behind a Convert to T's reflect.Type or a test of type identity. (C12.kind) every reflect.Value.Int/Uint/Float/Bool lies where the kind of the receiver is known to be in the accessor's class (switch case, == test or one of the module's kind predicates, themselves verified against all kinds). (C12.shadow) no error variable declared without a value (named result, `var err error`) is read — tested, returned, handed back by a bare return — while nothing in the function assigns it, and no assignment to an error variable that shadows an outer one of the same name is left unread before its scope ends: both are the marks of an error lost to := shadowing. (C12.pos/C12.format, continued) the positioned raise is recognised by what it raises — a value built by fmt.Errorf from a node's TemplatePath and Line, directly, through a local, or as the result of a helper all of whose results are — not by the name of the function. (C12.panicval taken-out) a function that is handed the fields of a struct one by one (`<value>.Field(i)` as an argument of a call to it) calls Interface() on such a parameter only where CanInterface() is known to hold: reflect refuses to hand out unexported fields with a string panic.",
 			NotDecided:  "that the recorded line is the action's own line for multi-line actions (lexer look-ahead); errors returned as a second result by reflected user functions (dropped by the call path: observed, not decided); writer errors.",
 			Assumptions: []string{"panics raised inside the standard library's reflect package are strings or runtime errors"},
 			Trusted:     commonTrusted,
 		},
 		Mutants: []Mutant{
+			{Name: "values of unexported struct fields taken out with Interface() (original defect)", File: "eval.go", Old: "\t\tif !v1.CanInterface() || !v2.CanInterface() {\n\t\t\treturn false\n\t\t}\n", New: "", Rule: "C12.panicval"},
 			{Name: "integer division by zero unguarded (original defect)", File: "eval.go", Old: "\t\t\t\tif toInt(right) == 0 {\n\t\t\t\t\tnode.Right.errorf(\"division by zero\")\n\t\t\t\t}\n", New: "", Rule: "C12.div"},
 			{Name: "modulo by zero unguarded for unsigned operands (original defect)", File: "eval.go", Old: "\t\t} else if isUint(kind) {\n\t\t\tif toUint(right) == 0 {\n\t\t\t\tnode.Right.errorf(\"modulo by zero\")\n\t\t\t}\n\t\t}\n", New: "\t\t}\n", Rule: "C12.div"},
 			{Name: "executeSet asserts '_' to *FieldNode (original defect)", File: "eval.go", Old: "\tif typ == NodeUnderscore {\n\t\treturn // the value is discarded\n\t}\n", New: "", Rule: "C12.assert"},
@@ -215,8 +216,8 @@ func runC12(c *an.Ctx) {
 		}
 		c.OK("C12.panicval", key, s.call.Pos(), "panic value implements error")
 		// C12.pos
-		if parse[s.fn] || s.fn.Name == "(*NodeBase).errorf" {
-			continue // parser errors carry ParseName and line (C02); errorf is the positioned raise itself
+		if parse[s.fn] || c12positioned(p, s.fn, arg, 0) {
+			continue // parser errors carry ParseName and line (C02); the value raised is built from the node's path and line: the positioned raise itself
 		}
 		bareByFn[s.fn.Name] = append(bareByFn[s.fn.Name], s.call.Pos())
 	}
@@ -231,6 +232,7 @@ func runC12(c *an.Ctx) {
 	c.OK("C12.pos", "(*NodeBase).errorf", p.Jet.Syntax[0].Pos(), "all other failures are raised through NodeBase.errorf")
 	convGuards(c, "C12.panicval", nil)
 	boundsRule(c, "C12.panicval")
+	c12fieldInterface(c)
 
 	// ---------------------------------------------------------------- C12.nilrecv
 	nCalls := 0
@@ -277,57 +279,35 @@ func runC12(c *an.Ctx) {
 	c12report(c, eval, parse)
 
 	// ---------------------------------------------------------------- C12.format
-	if ef := c.Fn("C12.format", "(*NodeBase).errorf"); ef != nil {
-		hasPath, hasLine, panicsErrorf := false, false, false
-		an.InspectOwn(ef, func(n ast.Node) bool {
-			call, ok := n.(*ast.CallExpr)
-			if !ok || an.CalleeName(info, call) != "fmt.Errorf" {
-				return true
+	for _, name := range []string{"(*NodeBase).errorf", "(*NodeBase).error"} {
+		ef := c.Fn("C12.format", name)
+		if ef == nil {
+			continue
+		}
+		// every panic of the function raises a value built from the node's TemplatePath and Line — or the function
+		// hands the failure to the other one (error → errorf), which does
+		npanic, positioned := 0, 0
+		for _, call := range p.CallsIn(ef, "builtin.panic") {
+			npanic++
+			if c12positioned(p, ef, call.Args[0], 0) {
+				positioned++
 			}
-			// it must be the panic value
-			for _, enc := range an.EnclosingStmts(ef, call) {
-				if es, ok := enc.(*ast.ExprStmt); ok {
-					if pc, ok := es.X.(*ast.CallExpr); ok && an.IsCallTo(info, pc, "builtin.panic") {
-						panicsErrorf = true
-					}
-				}
-			}
-			verbs := 0
-			if tv := info.Types[call.Args[0]]; tv.Value != nil && tv.Value.Kind() == constant.String {
-				verbs = strings.Count(constant.StringVal(tv.Value), "%")
-			}
-			for _, a := range call.Args[1:] {
-				// the argument itself, or what the local it names was computed from
-				for _, o := range valueOrigins(ef, a, 0) {
-					ast.Inspect(o, func(m ast.Node) bool {
-						if sel, ok := m.(*ast.SelectorExpr); ok {
-							switch p.FieldKey(info, sel) {
-							case "NodeBase.TemplatePath":
-								hasPath = true
-							case "NodeBase.Line":
-								hasLine = true
-							}
-						}
-						return true
-					})
-				}
-			}
-			if verbs < len(call.Args)-1 {
-				hasLine = hasLine && false
-			}
-			return true
-		})
-		c.Check(panicsErrorf && hasPath && hasLine, "C12.format", "(*NodeBase).errorf", ef.Pos(), "runtime errors carry the node's TemplatePath and Line",
-			"NodeBase.errorf does not format both the node's TemplatePath and its Line into the error it raises")
-	}
-	if e := c.Fn("C12.format", "(*NodeBase).error"); e != nil {
-		c.Check(len(p.CallsIn(e, "(*jet.NodeBase).errorf")) == 1, "C12.format", "(*NodeBase).error", e.Pos(), "error delegates to errorf", "NodeBase.error does not delegate to errorf")
+		}
+		delegates := len(p.CallsIn(ef, "(*jet.NodeBase).errorf")) == 1 && name != "(*NodeBase).errorf"
+		ok := (npanic > 0 && positioned == npanic) || (npanic == 0 && delegates)
+		if name == "(*NodeBase).errorf" {
+			c.Check(ok, "C12.format", name, ef.Pos(), "runtime errors carry the node's TemplatePath and Line",
+				"NodeBase.errorf does not format both the node's TemplatePath and its Line into the error it raises")
+		} else {
+			c.Check(ok, "C12.format", name, ef.Pos(), "error raises the same positioned error as errorf (by delegating to it, or built the same way)", "NodeBase.error does not delegate to errorf")
+		}
 	}
 
 	// ---------------------------------------------------------------- C12.line
 	c12line(c, eval, parse)
 	// ---------------------------------------------------------------- C12.early
 	c12early(c, parse)
+	c12shadow(c)
 	// ---------------------------------------------------------------- C12.stream
 	nRedirect := 0
 	for _, f := range an.SortedFns(eval) {
@@ -936,4 +916,69 @@ func c12validPreserving(g *an.Fn) ([]int, bool) {
 		return true
 	})
 	return params, ok
+}
+
+// c12positioned: the error value e (in f) is built by fmt.Errorf from the TemplatePath and the Line of a node (with a
+// verb for each argument) — directly, through a local, or as the result of a module function all of whose results are.
+func c12positioned(p *an.Prog, f *an.Fn, e ast.Expr, depth int) bool {
+	if depth > 4 {
+		return false
+	}
+	info := f.Info()
+	origins := valueOrigins(f, e, 0)
+	if len(origins) == 0 {
+		return false
+	}
+	for _, o := range origins {
+		call, ok := an.Unparen(o).(*ast.CallExpr)
+		if !ok {
+			return false
+		}
+		if an.CalleeName(info, call) == "fmt.Errorf" {
+			hasPath, hasLine := false, false
+			verbs := 0
+			if tv := info.Types[call.Args[0]]; tv.Value != nil && tv.Value.Kind() == constant.String {
+				verbs = strings.Count(constant.StringVal(tv.Value), "%") - 2*strings.Count(constant.StringVal(tv.Value), "%%")
+			}
+			for _, a := range call.Args[1:] {
+				// the argument itself, or what the local it names was computed from
+				for _, ao := range valueOrigins(f, a, 0) {
+					ast.Inspect(ao, func(m ast.Node) bool {
+						if sel, ok := m.(*ast.SelectorExpr); ok {
+							switch p.FieldKey(info, sel) {
+							case "NodeBase.TemplatePath":
+								hasPath = true
+							case "NodeBase.Line":
+								hasLine = true
+							}
+						}
+						return true
+					})
+				}
+			}
+			if !hasPath || !hasLine || verbs < len(call.Args)-1 {
+				return false
+			}
+			continue
+		}
+		g := p.FnByObj[an.Callee(info, call)]
+		if g == nil || g.Body == nil || g.Pkg != p.Jet {
+			return false
+		}
+		nret := 0
+		all := true
+		an.InspectBody(g, func(n ast.Node) bool {
+			if r, ok := n.(*ast.ReturnStmt); ok {
+				nret++
+				if len(r.Results) != 1 || !c12positioned(p, g, r.Results[0], depth+1) {
+					all = false
+				}
+			}
+			return true
+		})
+		if nret == 0 || !all {
+			return false
+		}
+	}
+	return true
 }
